@@ -224,6 +224,9 @@ elif cases and cases[0].startswith("huge "):
         ln.append(L); tr.append((hd + [255] * (min(L, size_h) - len(hd)))[:min(L, size_h)])
     huge_cases.append((cases[0], mk(int(t[1]), int(t[2]), int(t[3]), int(t[4]), int(t[5]), 0, 1, 2, 1000, size_h, tr), tr, ln))
     cases = []
+elif cases and cases[0].startswith("ms "):
+    ms_cases = [(0, cases[0]), (1, cases[0])]      # replay of a parallel_mergesort line: both element kinds
+    cases = []
 
 parsed = [parse(c) for c in cases]
 main_idx = list(range(len(parsed)))
@@ -460,7 +463,7 @@ else:
                 continue
             if par and (f.get("win", "").count("+") >= 2 or (f.get("win") == "?" and g_windows(model[idx]) >= 2)): distinct.add(line)
         pick = [0, len(corpus), len(todo) // 2, len(todo) - 1]
-        samples += [{"case": todo[i], "impl": str(impl[i])[:300], "model": model[i][:300]} for i in pick if i < len(impl) and i < len(todo)]
+        samples += [{"case": todo[i], "impl": str(impl[i])[:300], "model": model[i][:300]} for i in pick if 0 <= i < len(impl) and i < len(todo)]
         if ms_cases: samples.append({"case": ms_cases[0][1][:300]})
 
     # --- ThreadSanitizer run (thorough tier): same harness, a slice of the parallel cases
